@@ -253,7 +253,7 @@ def run_c09(pid, tier):
 
 # ------------------------------------------------------------------------------ C11
 _tsan_head = re.compile(r"WARNING: ThreadSanitizer: ([^\(\n]+)")
-_frame = re.compile(r"#\d+ (\S+) (?:/repo/|/verif/)?(\S+?):(\d+)")
+_frame = re.compile(r"#\d+ (\S+) (?:%s/|/repo/|/verif/)?(\S+?):(\d+)" % re.escape(vlib.REPO))
 
 
 def parse_tsan(logglob):
